@@ -1,6 +1,6 @@
 (* C15 — Text functions satisfy the string algebra they document.
-   Property theorems only; proofs are in Proofs/TextProofs.v.  Case tables: Gen/CaseTables.v (generated). *)
-From HX Require Import Model.Value Model.Text Gen.CaseTables Proofs.TextProofs.
+   Property theorems only; proofs are in Proofs/TextProofs.v and Proofs/TextAlgebra.v.  Case tables: Gen/CaseTables.v (generated). *)
+From HX Require Import Model.Value Model.Text Gen.CaseTables Proofs.TextProofs Proofs.TextAlgebra.
 Open Scope Z_scope.
 
 (* LEFT / RIGHT / MID: the requested leading, trailing, inner characters *)
@@ -96,6 +96,30 @@ Theorem C15_positions_are_occurrences : forall old s i,
   In i (positions old s 0) <-> (i < length s)%nat /\ is_prefix old (skipn i s) = true.
 Proof. exact positions_sound. Qed.
 
+(* the slicing functions related to each other and to LEN (Proofs/TextAlgebra.v) *)
+Theorem C15_len_of_slices : forall s n, 0 <= n ->
+  (exists a, fn_LEFT s n = TOk a /\ fn_LEN a = Z.min n (fn_LEN s)) /\
+  (exists b, fn_RIGHT s n = TOk b /\ fn_LEN b = Z.min n (fn_LEN s)).
+Proof. intros s n H. split; [exact (len_LEFT s n H)|exact (len_RIGHT s n H)]. Qed.
+Theorem C15_len_of_MID : forall s st n, 1 <= st -> 0 <= n ->
+  exists a, fn_MID s st n = TOk a /\ fn_LEN a = Z.max 0 (Z.min n (fn_LEN s - (st - 1))).
+Proof. exact len_MID. Qed.
+Theorem C15_left_of_left : forall s n m, 0 <= n -> 0 <= m ->
+  exists a, fn_LEFT s n = TOk a /\ fn_LEFT a m = fn_LEFT s (Z.min n m).
+Proof. exact left_left. Qed.
+Theorem C15_left_mid_right_split : forall s st n, 1 <= st -> 0 <= n -> st - 1 + n <= fn_LEN s ->
+  exists a b c, fn_LEFT s (st - 1) = TOk a /\ fn_MID s st n = TOk b /\
+                fn_RIGHT s (fn_LEN s - (st - 1) - n) = TOk c /\ a ++ b ++ c = s.
+Proof. exact left_mid_right_split. Qed.
+Theorem C15_mid_past_prefix : forall a b st n, 1 <= st -> 0 <= n -> fn_MID (a ++ b) (fn_LEN a + st) n = fn_MID b st n.
+Proof. exact mid_past_prefix. Qed.
+Theorem C15_slices_of_concat : forall a b, fn_LEFT (a ++ b) (fn_LEN a) = TOk a /\ fn_RIGHT (a ++ b) (fn_LEN b) = TOk b.
+Proof. exact left_right_of_concat. Qed.
+Theorem C15_CLEAN_distributes : forall a b, fn_CLEAN (a ++ b) = fn_CLEAN a ++ fn_CLEAN b.
+Proof. exact CLEAN_app. Qed.
+Theorem C15_CLEAN_never_lengthens : forall s, fn_LEN (fn_CLEAN s) <= fn_LEN s.
+Proof. exact len_CLEAN_le. Qed.
+
 Example C15_examples :
   fn_RIGHT [97; 98; 99] 0 = TOk [] /\ fn_RIGHT [97; 98; 99] 2 = TOk [98; 99] /\
   fn_SUBSTITUTE [97; 98; 99; 98] [98] [] None = TOk [97; 99] /\
@@ -108,6 +132,9 @@ Example C15_examples :
 Proof. vm_compute. repeat split; reflexivity. Qed.
 
 Print Assumptions C15_left_right_split.
+Print Assumptions C15_left_mid_right_split.
+Print Assumptions C15_len_of_MID.
+Print Assumptions C15_slices_of_concat.
 Print Assumptions C15_UPPER_idempotent.
 Print Assumptions C15_LOWER_idempotent.
 Print Assumptions C15_PROPER_idempotent_partial.
